@@ -170,3 +170,28 @@ PROPS['C12'] = dict(
     ],
     assumptions=["the temporary file name is fresh (ioutil.TempFile) and differs from every record name"],
 )
+
+def conc_compare(case, impl, model):
+    if case.startswith('slice '):
+        return None if impl == model else 'slice model differs'
+    if impl.startswith('DIFF '):
+        return impl
+    a, b = impl.split(' @@ '), model.split(' @@ ')
+    if len(a) != len(b):
+        return 'session count %d vs %d' % (len(a), len(b))
+    for i, (x, y) in enumerate(zip(a, b)):
+        d = compare_lines(x, y, ['x', 'c', 'f', 'o'])
+        if d:
+            return 'session %d: %s' % (i, d)
+    return None
+
+PROPS['C19'] = dict(
+    prop_modules=['Vise.Props.C19'], lean_targets=['Vise.Props.C19'], suites=['conc'],
+    compare={'conc': conc_compare},
+    trusted=ENGINE_TRUSTED + [
+        "PARTIAL: goroutine interleavings, the Go memory model and the race detector's happens-before analysis are not expressible in the Lean model; they are exercised by running the real engines concurrently under -race (the schedules the Go scheduler produces over the rounds of each case, with random yields), which samples schedules and proves nothing about the unsampled ones",
+        "the Lean side proves (a) non-interference of every interleaving for any step function over shared immutable data and private per-session state, instantiated with the engine model, and (b) the frame property of the clipped append on a heap-and-slice model of Go slices, which is compared with real Go slices operation by operation",
+        "that the library has no other shared mutable state is a reviewed inventory (package-level variables, assignments to them outside init, method calls on them, the first argument of every append in vm/runner.go) regenerated from the source by the go/ast extractor on every run and pinned in Vise/Pins/C19.lean; aliasing through other APIs (maps, pointers handed out by a resource) is not analysed",
+    ],
+    assumptions=["sessions share only the application data; vm.RegisterInputValidator, state.FlagDebugger registration and logging.LogWriter are set-up-time APIs not called while sessions are served"],
+)
